@@ -214,4 +214,53 @@ def fromQuery (fixed : Bool) : Stmt → Planner
   | .delete s => (den fixed s []).1
   | .other => pFail (.planning "Unsupported query type")
 
+/-! ### `cte_results`: the name → result dictionary of `plan_cte` / `get_integration_select_step`
+
+Names are lists of character codes; the three places that touch the dictionary may each spell the key in
+their own way (as written, case-folded, …) — `CteKeys` records which. -/
+
+abbrev Name := List Nat
+
+/-- ASCII `str.lower()` on character codes -/
+def lowerName (n : Name) : Name := n.map (fun c => if 65 ≤ c ∧ c ≤ 90 then c + 32 else c)
+
+structure CteKeys where
+  /-- `plan_cte`: `self.cte_results[<store name>] = step.result` -/
+  store : Name → Name
+  /-- `get_integration_select_step`: `<test name> in self.cte_results` -/
+  test : Name → Name
+  /-- `get_integration_select_step`: `self.cte_results[<fetch name>]` -/
+  fetch : Name → Name
+
+/-- the code as it is: every key is the name as written -/
+def CteKeys.exact : CteKeys := ⟨id, id, id⟩
+/-- a complete case-insensitive variant -/
+def CteKeys.folded : CteKeys := ⟨lowerName, lowerName, lowerName⟩
+
+def dictGet (dict : List (Name × SNum)) (key : Name) : Option SNum :=
+  match dict with
+  | [] => none
+  | (k, r) :: rest => if k = key then some r else dictGet rest key
+
+/-- `self.cte_results[name] = result` (a later CTE of the same key replaces the earlier one) -/
+def cteStore (k : CteKeys) (dict : List (Name × SNum)) (name : Name) (r : SNum) : List (Name × SNum) :=
+  (k.store name, r) :: dict
+
+/-- how `get_integration_select_step` classifies a bare table name of the default namespace:
+`some r` = reference to a CTE (→ `SubSelectStep` on `r`), `none` = an ordinary table (→ fetch);
+the dictionary access after a successful membership test raises `KeyError` when the two keys differ -/
+def cteRef (k : CteKeys) (dict : List (Name × SNum)) (name : Name) : Except Err (Option SNum) :=
+  if (dictGet dict (k.test name)).isSome then
+    match dictGet dict (k.fetch name) with
+    | some r => .ok (some r)
+    | none => .error (.internal "KeyError")
+  else .ok none
+
+/-- `plan_integration_select` of `SELECT … FROM <bare name>` under a default namespace -/
+def planTableRef (k : CteKeys) (dict : List (Name × SNum)) (name : Name) (params : List SNum) : Planner :=
+  match cteRef k dict name with
+  | .ok (some r) => planIntegrationSelect true (r :: params)
+  | .ok none => planIntegrationSelect false params
+  | .error e => pFail e
+
 end MindsVerif.Plan
